@@ -69,6 +69,9 @@ def run_check(args):
     if not roots:
         print(f"CHECKER-ERROR: no contracts registered for {prop}")
         return 3
+    if os.environ.get("PYVC_DUMP"):
+        for r_ in sorted(results, key=lambda r_: -r_.get("wall", 0))[:5]:
+            print(f"[pyvc] case wall {r_.get('wall', 0):.1f}s paths {r_.get('paths')} {r_['contract']} [{r_.get('case_desc', '')[:80]}]", flush=True)
     obl = M.aggregate(results)
     lock_all = load_json(LOCK_FILE, {})
     lock = set(lock_all.get(prop, []))
